@@ -1059,7 +1059,7 @@ class ParseContext:
 
 
 def normalize_list(dom_: DOMNode) -> None:
-    child = next(iter(dom_))
+    child = next(iter(dom_), None)
     prev_item: DOMNode | None = None
 
     while child is not None:
